@@ -54,7 +54,7 @@ package metrics
 //@   ensures len(messages) > 0 && old(observedP(ctxOf(messages[0]))) ==> calls(OBS) == old(calls(OBS)) [already-observed-by-an-outer-decorator-not-counted-again]
 //@   ensures len(messages) > 0 && !old(observedP(ctxOf(messages[0]))) ==> calls(OBS) == old(calls(OBS)) + 1 [counted-exactly-once]
 //@   assert @call:m.pub.Publish#2: forall j int :: 0 <= j && j < len(messages) ==> observedP(ctxOf(messages[j])) [every-message-marked-before-the-inner-publisher-sees-it]
-//@   assert @call:HVW: labels[labelSuccess] == (err == nil ? "true" : "false") [success-label-matches-the-result]
+//@   assert @call:HVW: labels[labelSuccess] == ((panicked(P, calls(P) - 1) || err != nil) ? "false" : "true") [success-label-is-true-only-for-a-publish-that-returned-no-error-and-did-not-panic]
 //@   inv loop 1: calls(P) == old(calls(P)) && calls(OBS) == old(calls(OBS)) && labels != nil && fresh(labels) && ctx == old(ctxOf(messages[0])) && (forall j int :: 0 <= j && j <= rangeindex ==> observedP(ctxOf(messages[j]))) && (forall j int :: 0 <= j && j < len(messages) ==> messages[j] != nil) [marking-in-progress]
 //@   panics-ensures calls(P) == old(calls(P)) + 1 && panicked(P, old(calls(P))) && (len(messages) > 0 && !old(observedP(ctxOf(messages[0]))) ==> calls(OBS) == old(calls(OBS)) + 1) [a-panicking-publisher-is-still-counted]
 //@   modifies field(message.Message.ctx)
@@ -73,3 +73,20 @@ package metrics
 //@   ensures calls(OBS) == old(calls(OBS)) + 1 [every-invocation-observed-exactly-once]
 //@   assert @call:HVW: labels[labelSuccess] == ((panicked(H, calls(H) - 1) || ret(H, 1, calls(H) - 1) != nil) ? "false" : "true") [success-label-is-true-only-for-an-invocation-that-returned-no-error-and-did-not-panic]
 //@   panics-ensures panicked(H, old(calls(H))) && calls(OBS) == old(calls(OBS)) + 1 [a-panicking-invocation-is-observed-too]
+
+//@ func (SubscriberPrometheusMetricsDecorator).recordMetrics$1
+//@   requires msg != nil && ctx != nil && labels != nil && s.subscriberMessagesReceivedTotal != nil
+//@   ghost strong msg
+//@   callee INC = *.Inc : total
+//@   nopanic
+//@   ensures observedS(ctx) ==> calls(INC) == old(calls(INC)) [already-observed-by-an-outer-decorator-not-counted-again]
+//@   ensures !observedS(ctx) ==> calls(INC) == old(calls(INC)) + 1 [a-settled-message-is-counted-exactly-once]
+//@   assert @call:CVW: (labels[labelAcked] == "acked" && msg.ackSentType == 1) || (labels[labelAcked] == "nacked" && msg.ackSentType == 2) [label-matches-the-settlement-observed]
+//@   modifies map(labels)
+
+//@ func (SubscriberPrometheusMetricsDecorator).recordMetrics
+//@   requires s.subscriberMessagesReceivedTotal != nil
+//@   nopanic
+//@   ensures msg == nil ==> spawned("(SubscriberPrometheusMetricsDecorator).recordMetrics$1") == old(spawned("(SubscriberPrometheusMetricsDecorator).recordMetrics$1")) [nil-messages-are-ignored]
+//@   ensures msg != nil ==> spawned("(SubscriberPrometheusMetricsDecorator).recordMetrics$1") == old(spawned("(SubscriberPrometheusMetricsDecorator).recordMetrics$1")) + 1 && observedS(ctxOf(msg)) && observedP(ctxOf(msg)) == old(observedP(ctxOf(msg))) [one-counting-goroutine-per-message-and-the-message-is-marked]
+//@   modifies msg.ctx
